@@ -5,8 +5,9 @@ while true; do
   total=$(wc -l < $Q)
   if [ "$n" -lt "$total" ]; then
     n=$((n+1)); line=$(sed -n "${n}p" $Q); [ -z "$line" ] && continue
+    suite=1; if [ "${line%% *}" = nosuite ]; then suite=0; line=${line#nosuite }; fi
     id=${line%% *}
-    /verif/tools/seeded.sh $line > /var/tmp/seeded-$id.log 2>&1
+    SEEDED_SUITE=$suite /verif/tools/seeded.sh $line > /var/tmp/seeded-$id.log 2>&1
     echo "$(date +%T) done $line: $(tail -1 /var/tmp/seeded-$id.log)" >> /var/tmp/seeded.done
   else
     sleep 5
